@@ -135,6 +135,37 @@ def float_out_of_range(node, d, tuples=True):
     return False
 
 
+LOGICAL_PYTYPES = (datetime.date, datetime.time, datetime.datetime, uuid.UUID, decimal.Decimal)
+
+
+def raw_under_logical(node, d, tuples=True):
+    """True if, under some branch the datum conforms to, a node carrying a
+    supported logical type receives a raw (non logical-type) value.  Reading
+    such values back goes through conversions with restricted domains
+    (uuid.UUID('x'), date.fromordinal(2**31) ...); the round-trip clauses are
+    only judged on logical-type values."""
+    node = deref(node)
+    k = node.kind
+    if node.logical and L.known(node):
+        return not isinstance(d, LOGICAL_PYTYPES)
+    if k == "array":
+        return _seq(d, True) and any(raw_under_logical(node.items, x, tuples) for x in d)
+    if k == "map":
+        return isinstance(d, Mapping) and any(raw_under_logical(node.values, x, tuples) for x in d.values())
+    if k == "record":
+        return isinstance(d, Mapping) and any(
+            raw_under_logical(f.type, d[f.name], tuples) for f in node.fields if f.name in d
+        )
+    if k == "union":
+        if tuples and type(d) is tuple and len(d) == 2:
+            return any(hint_name(b) == d[0] and raw_under_logical(b, d[1], tuples) for b in node.branches)
+        return any(
+            conforms(b, d, False, tuples, True) and raw_under_logical(b, d, tuples)
+            for b in node.branches
+        )
+    return False
+
+
 def choose_branch(node, d, tuples=True, loose=False):
     """The union branch rule of C09; returns (index, datum without hint)."""
     if tuples and type(d) is tuple:
